@@ -233,4 +233,74 @@ theorem lmpStagesS_slack_one {F : Type} (fr : List (Nat × Nat)) (h : ∀ f ∈ 
         lmpCountS_slack_one _ hdrop, List.map_drop]
       rw [ih]
 
+/-! ### no complete frame is withheld beyond one poll -/
+
+theorem lmpFinalS_ge (fr : List (Nat × Nat)) (cuts : List Nat) (d m : Nat) : d ≤ (lmpFinalS fr cuts d m).1 := by
+  induction cuts generalizing d m with
+  | nil => exact Nat.le_refl _
+  | cons c cs ih =>
+    simp only [lmpFinalS]
+    by_cases hm : m ≠ 0
+    · by_cases h : c < endOf fr d <;> simp only [hm, h, if_true, if_false, ne_eq, not_false_eq_true] <;> exact ih _ _
+    · simp only [hm, if_false]
+      exact Nat.le_trans (Nat.le_add_right _ _) (ih _ _)
+
+theorem endOf_eq_sumLens (fr : List (Nat × Nat)) (d : Nat) : endOf fr d = sumLens ((fr.map Prod.fst).take d) := by
+  simp [endOf, List.map_take]
+
+theorem lmpFinalS_cons_zero (fr : List (Nat × Nat)) (c : Nat) (cs : List Nat) (d : Nat) :
+    lmpFinalS fr (c :: cs) d 0
+      = lmpFinalS fr cs (d + (lmpCountS (fr.drop d) (c - endOf fr d)).1) (lmpCountS (fr.drop d) (c - endOf fr d)).2 := by
+  simp [lmpFinalS]
+
+theorem lmpFinalS_cons_stay (fr : List (Nat × Nat)) (c : Nat) (cs : List Nat) (d m : Nat) (hm : m ≠ 0)
+    (h : c < endOf fr d) : lmpFinalS fr (c :: cs) d m = lmpFinalS fr cs d m := by
+  simp [lmpFinalS, hm, h]
+
+theorem lmpFinalS_cons_skip (fr : List (Nat × Nat)) (c : Nat) (cs : List Nat) (d m : Nat) (hm : m ≠ 0)
+    (h : ¬ c < endOf fr d) : lmpFinalS fr (c :: cs) d m = lmpFinalS fr cs d 0 := by
+  simp [lmpFinalS, hm, h]
+
+/-- a poll from a frame boundary returns at least every frame that is completely visible -/
+theorem lmpCountS_ge (fr : List (Nat × Nat)) (d c : Nat) (hd : d ≤ fr.length) (he : endOf fr d ≤ c) :
+    completeCount (fr.map Prod.fst) c ≤ d + (lmpCountS (fr.drop d) (c - endOf fr d)).1 := by
+  have h1 : d ≤ completeCount (fr.map Prod.fst) c :=
+    le_completeCount (fr.map Prod.fst) d c (by simpa using hd) (by rw [← endOf_eq_sumLens]; exact he)
+  have h2 := completeCount_resume (fr.map Prod.fst) d c h1
+  rw [← endOf_eq_sumLens] at h2
+  have h3 := (lmpCountS_spec (fr.drop d) (c - endOf fr d)).2.2.2
+  rw [List.map_drop] at h3
+  omega
+
+/-- a frame that is complete at a poll has been returned at the latest by the next poll: from every valid state,
+    after the polls `a ≤ b` at least the frames complete at `a` have been returned -/
+theorem lmpS_two_polls (fr : List (Nat × Nat)) (c0 a b d m : Nat) (h0 : c0 ≤ a) (hab : a ≤ b)
+    (hv : LInvS fr c0 d m) : completeCount (fr.map Prod.fst) a ≤ (lmpFinalS fr [a, b] d m).1 := by
+  obtain ⟨hd, he, _⟩ := hv
+  by_cases hm : m ≠ 0
+  · by_cases h : a < endOf fr d
+    · -- still late: fewer than `d` frames are complete at `a`
+      have hlt : completeCount (fr.map Prod.fst) a ≤ d := by
+        rcases Nat.lt_or_ge d (completeCount (fr.map Prod.fst) a) with hgt | hle
+        · exfalso
+          have h1 := completeCount_sum_le (fr.map Prod.fst) a
+          have h2 := sumLens_take_mono (fr.map Prod.fst) d _ (Nat.le_of_lt hgt)
+          rw [← endOf_eq_sumLens] at h2
+          omega
+        · exact hle
+      rw [lmpFinalS_cons_stay fr a [b] d m hm h]
+      exact Nat.le_trans hlt (lmpFinalS_ge fr [b] d m)
+    · -- the skip poll; the next poll starts at a frame boundary
+      have hb : endOf fr d ≤ b := by omega
+      have h1 := lmpCountS_ge fr d b hd hb
+      have h2 := completeCount_mono (fr.map Prod.fst) a b hab
+      rw [lmpFinalS_cons_skip fr a [b] d m hm h, lmpFinalS_cons_zero]
+      simp only [lmpFinalS]
+      omega
+  · have hm0 : m = 0 := by omega
+    subst hm0
+    have h1 := lmpCountS_ge fr d a hd (by omega)
+    rw [lmpFinalS_cons_zero]
+    exact Nat.le_trans h1 (lmpFinalS_ge fr [b] _ _)
+
 end Infretis.Readers
